@@ -1422,8 +1422,8 @@ fn diagnose_bounded_operand(
     Ok(())
 }
 
-fn variables_without_finite_bounds(exp: &Exp, bounds: &BoundsAnalyzer) -> Vec<String> {
-    let mut variables = IndexSet::new();
+/// Adds the names of the variables that occur in the expression.
+fn collect_variable_names(exp: &Exp, variables: &mut IndexSet<String>) {
     let mut pending = vec![exp];
     while let Some(current) = pending.pop() {
         match current {
@@ -1446,6 +1446,11 @@ fn variables_without_finite_bounds(exp: &Exp, bounds: &BoundsAnalyzer) -> Vec<St
             }
         }
     }
+}
+
+fn variables_without_finite_bounds(exp: &Exp, bounds: &BoundsAnalyzer) -> Vec<String> {
+    let mut variables = IndexSet::new();
+    collect_variable_names(exp, &mut variables);
     let mut variables = variables
         .into_iter()
         .filter(|name| {
@@ -1683,6 +1688,22 @@ impl Linearizer {
                 });
             }
         }
+        // a model built by hand may use a variable it does not declare, or declare
+        // one without marking it as used: the first is an error, the second is
+        // marked here, so that no variable of a row or of the objective is dropped
+        let mut occurring = IndexSet::new();
+        collect_variable_names(&objective.rhs, &mut occurring);
+        for constraint in &constraints {
+            collect_variable_names(constraint.lhs(), &mut occurring);
+            collect_variable_names(constraint.rhs(), &mut occurring);
+        }
+        for name in occurring {
+            match domain.get_mut(&name) {
+                Some(variable) if !variable.is_used() => variable.increment_usage(),
+                Some(_) => {}
+                None => return Err(LinearizationError::UndeclaredVariable(name)),
+            }
+        }
         // simplification lets a variable stand for `x or false` and `x and true`,
         // so a variable that is a logic operand is checked to be Boolean before
         check_logic_variable_operands(&objective.rhs, &domain)?;
@@ -1831,6 +1852,8 @@ pub enum LinearizationError {
     },
     /// The declared range of a variable is not a valid domain
     InvalidDomain { variable: String, reason: String },
+    /// The objective or a constraint uses a variable the model does not declare
+    UndeclaredVariable(String),
 }
 
 impl Display for LinearizationError {
@@ -1838,6 +1861,9 @@ impl Display for LinearizationError {
         match self {
             LinearizationError::InvalidDomain { variable, reason } => {
                 write!(f, "Invalid domain of variable \"{}\": {}", variable, reason)
+            }
+            LinearizationError::UndeclaredVariable(name) => {
+                write!(f, "Variable \"{}\" is used but not declared", name)
             }
             LinearizationError::NonLinearExpression(exp) => {
                 write!(f, "Non linear expression: \"{}\"", exp)
